@@ -260,6 +260,22 @@ def c18(run):
     run.cov["worst_ratio_steps_per_byte_len_ge_1000"] = {"ratio": round(worst[0], 3), "input": worst[1]}
     run.cov["total_steps"] = tot
     run.cov["samples"] = [worst[1]] + [vlib.shorten(o, 200) for o in vlib.sample(obs, 2)]
+    # the machine whose bound TLC checks counts what the hook counts: run Parser.tla on recorded inputs
+    sd = vlib.seed()
+    pk2 = dedupe(vlib.vdrive_gen("structured", sd + 31, 3000 if quick(run) else 40000) + vlib.vdrive_gen("boundary", 0, 0) + gen_tla(run, "Gen_Ptr", "Gen_Ptr.cfg")[::(12 if quick(run) else 1)])
+    obs2, path2 = vlib.drive(vlib.with_do(pk2, "parse"), run.wd, "path")
+    rc, out2 = vlib.tlc("Trace_ParserPath.tla", os.path.join(vlib.SPEC, "Trace_ParserPath.cfg"), run.wd, env={"TRACE": path2}, timeout=3600)
+    if vlib.tlc_failed(rc, out2) or "Error:" in out2:
+        raise ToolError("Trace_ParserPath failed:\n" + vlib.tlc_error_text(out2))
+    pc = collections.Counter()
+    for _, ln, txt in vlib.event_prints(out2, "PATH"):
+        a, b = txt.split("|")
+        pc[a] += 1
+        pc[b.split(":")[0]] += 1
+    st2 = vlib.tlc_stats(out2)
+    run.cov["parser_machine_run_on_recorded_inputs"] = {"inputs": len(obs2), "machine_states": st2["distinct"] if st2 else 0, **dict(pc)}
+    if pc.get("steps-differ", 0):
+        run.notes.append("note (not a violation): on %d of %d recorded inputs the step counter of the TLA+ parser machine differs from the hook's counter; the machine is implementation-shaped and may lag behind a refactoring of the loops" % (pc["steps-differ"], len(obs2)))
     if tot == 0:
         raise ToolError("the step counter hook reports nothing: is the harness built with --cfg dnssector_verif?")
     if worst[0] < 15:
@@ -625,12 +641,15 @@ import re as _re
 import histgen
 
 RE_C10 = _re.compile(r"a failed|must fail|must report a void|larger than the maximum|exceed the size limit|malformed record text was inserted|second question was inserted|succeeded although|accepted a name the parser rejects|succeeded on a record without")
+RE_C09X = _re.compile(r"EDNS options read through the object")
 RE_C08 = _re.compile(r"(the bytes are no longer acceptable|no longer acceptable|section offsets|offset of the EDNS|EDNS option count|EDNS version|the object says|the cached question|fresh parse|re-parsing|no longer designates|not a tombstone|does not yield the record that follows|reader|declared the bytes pointer-free|question getters|question\(\)|question_raw|cursor script did not complete)")
 
 
 def classify(why):
     if why.startswith("panic"):
         return {"C08", "C09", "C10"}
+    if RE_C09X.search(why):
+        return {"C09"}
     if RE_C10.search(why):
         return {"C10"}
     if RE_C08.search(why):
